@@ -450,6 +450,18 @@ def table_test(e):
         return None
     terms = _flat_or(e[2])
     ands = [x for x in terms if x[0] == 'bin' and x[1] == 'BitAnd' and _tbl(x[2]) is not None and _tbl(x[3]) is not None]
+    if len(terms) == 1 and len(ands) == 1 and e[3][1] == 0:
+        # the pair relation on its own: (table[second] & table[lead + 0x80]) == 0  <=>  second is allowed after lead (C14-D2.table.pairs);
+        # the other trail bytes are then tested separately
+        lead = second = None
+        for ix in (_tbl(ands[0][2]), _tbl(ands[0][3])):
+            if ix[0] == 'bin' and ix[1] == 'Add' and ix[3] == ('c', 0x80, 'usize'):
+                lead = _unext(ix[2])
+            else:
+                second = _unext(ix)
+        if lead is None or second is None:
+            return None
+        return 2, lead, second, None, None, e[1] == 'Eq'
     shr = [x for x in terms if x[0] == 'bin' and x[1] == 'Shr' and x[3][0] == 'c' and x[3][1] == 6]
     shl = [x for x in terms if x[0] == 'bin' and x[1] == 'Shl' and x[3][0] == 'c' and x[3][1] == 2]
     if len(ands) != 1 or len(shr) != 1:
@@ -790,7 +802,7 @@ class Scanner:
                 tt = table_test(e2)
                 if tt is not None:
                     kind, lead, second, third, fourth, acc_true = tt
-                    ok_shape = lead[0] == 'U' and second == ('U', lead[1] + 1) and third == ('U', lead[1] + 2) and (fourth is None or fourth == ('U', lead[1] + 3))
+                    ok_shape = lead[0] == 'U' and second == ('U', lead[1] + 1) and (kind == 2 or third == ('U', lead[1] + 2)) and (fourth is None or fourth == ('U', lead[1] + 3))
                     if ok_shape:
                         st.T.append((kind, lead[1], truth == acc_true))
                     continue
